@@ -157,6 +157,82 @@ fn run_library(schema_path: &Path, query_path: &Path, o: GraphQLClientCodegenOpt
     }
 }
 
+/// the items of a file as a set of normalised token strings (nested modules flattened with a path
+/// prefix): commas before a closing delimiter dropped, `use` trees expanded to single paths without a
+/// leading `::` — what rustfmt may legitimately change
+fn item_set(text: &str) -> Result<std::collections::BTreeSet<String>, String> {
+    use quote::ToTokens;
+    fn norm(ts: proc_macro2::TokenStream, out: &mut String) {
+        let toks: Vec<proc_macro2::TokenTree> = ts.into_iter().collect();
+        let n = toks.len();
+        for (i, t) in toks.into_iter().enumerate() {
+            match t {
+                proc_macro2::TokenTree::Group(g) => {
+                    let (o, c) = match g.delimiter() {
+                        proc_macro2::Delimiter::Parenthesis => ("(", ")"),
+                        proc_macro2::Delimiter::Brace => ("{", "}"),
+                        proc_macro2::Delimiter::Bracket => ("[", "]"),
+                        proc_macro2::Delimiter::None => ("", ""),
+                    };
+                    out.push_str(o);
+                    norm(g.stream(), out);
+                    out.push_str(c);
+                    out.push(' ');
+                }
+                proc_macro2::TokenTree::Punct(p) if p.as_char() == ',' && i + 1 == n => {}
+                other => {
+                    out.push_str(&other.to_string());
+                    out.push(' ');
+                }
+            }
+        }
+    }
+    fn use_paths(prefix: &str, t: &syn::UseTree, out: &mut Vec<String>) {
+        match t {
+            syn::UseTree::Path(p) => use_paths(&format!("{}{}::", prefix, p.ident), &p.tree, out),
+            syn::UseTree::Name(n) => out.push(format!("{}{}", prefix, n.ident)),
+            syn::UseTree::Rename(r) => out.push(format!("{}{} as {}", prefix, r.ident, r.rename)),
+            syn::UseTree::Glob(_) => out.push(format!("{}*", prefix)),
+            syn::UseTree::Group(g) => g.items.iter().for_each(|i| use_paths(prefix, i, out)),
+        }
+    }
+    fn walk(prefix: &str, items: &[syn::Item], set: &mut std::collections::BTreeSet<String>) {
+        for it in items {
+            match it {
+                syn::Item::Use(u) => {
+                    let mut v = Vec::new();
+                    use_paths("", &u.tree, &mut v);
+                    for p in v {
+                        set.insert(format!("{}use {} {}", prefix, u.vis.to_token_stream(), p));
+                    }
+                }
+                syn::Item::Mod(m) if m.content.is_some() => {
+                    let mut head = String::new();
+                    for a in &m.attrs {
+                        norm(a.to_token_stream(), &mut head);
+                    }
+                    set.insert(format!("{}mod {} {} [{}]", prefix, m.vis.to_token_stream(), m.ident, head));
+                    walk(&format!("{}{}::", prefix, m.ident), &m.content.as_ref().unwrap().1, set);
+                }
+                other => {
+                    let mut s = String::new();
+                    norm(other.to_token_stream(), &mut s);
+                    set.insert(format!("{}{}", prefix, s));
+                }
+            }
+        }
+    }
+    let f = syn::parse_file(text).map_err(|e| e.to_string())?;
+    let mut set = std::collections::BTreeSet::new();
+    let mut head = String::new();
+    for a in &f.attrs {
+        norm(a.to_token_stream(), &mut head);
+    }
+    set.insert(format!("#![{}]", head));
+    walk("", &f.items, &mut set);
+    Ok(set)
+}
+
 /// "`<query file stem>.rs`": the name up to its last dot; a name that only *starts* with a dot has no extension
 fn oracle_stem(name: &str) -> String {
     match name.rfind('.') {
@@ -470,8 +546,9 @@ impl Ctx {
             RealOutcome::Ok(t) => Some(format!("{}\n{}", HEADER, t)),
             _ => None,
         };
+        // "through rustfmt": the reference text through the same rustfmt, in the same directory
         let formatted: Option<Option<String>> = match (&unformatted, f.no_formatting) {
-            (Some(u), false) => Some(rustfmt(u)),
+            (Some(u), false) => Some(rustfmt(u, &dir)),
             _ => None,
         };
         let creatable = !matches!(case.placement, Placement::MissingDir);
@@ -519,15 +596,23 @@ impl Ctx {
                             if text.lines().next() != Some(HEADER) {
                                 fail(&mut self.rep, "header-missing", "the first line is not the warning-suppression header");
                             }
-                            let ts = |s: &str| syn::parse_file(s).map(|f| quote::ToTokens::to_token_stream(&f).to_string());
-                            match (ts(&text), ts(reference)) {
+                            // rustfmt reorders `use` items and drops trailing commas, so the token streams of the two
+                            // texts are compared *after* both went through rustfmt: byte equality of the results
+                            let want_text = formatted.as_ref().and_then(|x| x.as_ref()).unwrap();
+                            if &text != want_text {
+                                let i = text.chars().zip(want_text.chars()).position(|(x, y)| x != y).unwrap_or(text.len().min(want_text.len()));
+                                let ctx = |s: &str| s.chars().skip(i.saturating_sub(60)).take(140).collect::<String>();
+                                fail(&mut self.rep, "output-differs", &format!("the file is not rustfmt(header + newline + the library's tokens); file: …{}… / reference: …{}…", ctx(&text), ctx(want_text)));
+                            }
+                            // and it is the same Rust: every item of the library's output is there (items compared as
+                            // token strings without trailing commas, `use` items as a set)
+                            match (item_set(&text), item_set(reference)) {
                                 (Ok(a), Ok(b)) if a == b => {}
                                 (Ok(a), Ok(b)) => {
-                                    let i = a.chars().zip(b.chars()).position(|(x, y)| x != y).unwrap_or(a.len().min(b.len()));
-                                    let ctx = |s: &str| s.chars().skip(i.saturating_sub(60)).take(140).collect::<String>();
-                                    fail(&mut self.rep, "output-differs", &format!("the formatted file is not token-equal to header + the library's tokens; file: …{}… / library: …{}…", ctx(&a), ctx(&b)))
+                                    let d: Vec<&String> = a.symmetric_difference(&b).take(2).collect();
+                                    fail(&mut self.rep, "output-differs", &format!("the formatted file and the library's output differ as sets of items, e.g. {}", short(&format!("{:?}", d), 300)))
                                 }
-                                (a, b) => fail(&mut self.rep, "output-differs", &format!("cannot parse: file {:?} / reference {:?}", a.err().map(|e| e.to_string()), b.err().map(|e| e.to_string()))),
+                                (a, b) => fail(&mut self.rep, "output-differs", &format!("cannot parse: file {:?} / reference {:?}", a.err(), b.err())),
                             }
                         }
                     }
@@ -575,8 +660,11 @@ impl Ctx {
             let model_dest: Option<String> = r2.items().first().and_then(|s| s.as_str()).map(|s| s.to_string());
             match &model_dest {
                 None => {
-                    agree = false;
-                    self.rep.disagree(info(json!({"what": "dest-path", "model": "none", "documented": rel(&expected_dest)})));
+                    // no destination exactly when the query path has no file name (`q/..`)
+                    if Path::new(&query_arg).file_name().is_some() {
+                        agree = false;
+                        self.rep.disagree(info(json!({"what": "dest-path", "model": "none", "documented": rel(&expected_dest)})));
+                    }
                 }
                 Some(m) => {
                     let lexical = |p: &Path| -> PathBuf { p.components().filter(|c| !matches!(c, std::path::Component::CurDir)).collect() };
@@ -640,19 +728,23 @@ impl Ctx {
     fn path_case(&mut self, index: u64, p: &str, dir: Option<&str>) {
         self.rep.count("stream:paths");
         let std_name: Option<String> = Path::new(p).file_name().map(|s| s.to_string_lossy().into_owned());
-        let std_ext = Path::new(p).with_extension("rs").to_string_lossy().into_owned();
-        let std_dest: Option<String> = std_name.as_ref().map(|n| match dir {
-            Some(d) => Path::new(d).join(n).with_extension("rs").to_string_lossy().into_owned(),
-            None => std_ext.clone(),
-        });
         let std_stem: Option<String> = std_name.as_ref().and_then(|n| Path::new(n).file_stem().map(|s| s.to_string_lossy().into_owned()));
+        let std_parent: Option<String> = std_name.as_ref().and_then(|_| Path::new(p).parent().map(|s| s.to_string_lossy().into_owned()));
+        // the destination as generate.rs computes it, with std::path
+        let std_dest: Option<String> = std_name.as_ref().map(|n| {
+            let mut dest_name = Path::new(n).file_stem().map(|s| s.to_os_string()).unwrap_or_else(|| n.into());
+            dest_name.push(".rs");
+            match dir {
+                Some(d) => Path::new(d).join(&dest_name).to_string_lossy().into_owned(),
+                None => Path::new(p).with_file_name(&dest_name).to_string_lossy().into_owned(),
+            }
+        });
         let m_name = self.model.ask(&tagged("file-name", vec![st(p)]));
         if m_name.head() == Some("nomodel") {
             self.rep.case(None);
             return;
         }
         let unopt = |s: &Sexp| s.items().first().and_then(|x| x.as_str()).map(|x| x.to_string());
-        let m_ext = self.model.ask(&tagged("with-extension-rs", vec![st(p)]));
         let m_dest = self.model.ask(&tagged("dest-path", vec![opt_str(dir), st(p)]));
         let mut ok = true;
         let mut diff = |rep: &mut Report, what: &str, m: String, s: String| {
@@ -662,11 +754,14 @@ impl Ctx {
         if unopt(&m_name) != std_name {
             diff(&mut self.rep, "file_name", format!("{:?}", unopt(&m_name)), format!("{:?}", std_name));
         }
-        if m_ext.as_str() != Some(std_ext.as_str()) {
-            diff(&mut self.rep, "with_extension", m_ext.short(100), std_ext.clone());
-        }
         if unopt(&m_dest) != std_dest {
             diff(&mut self.rep, "dest", format!("{:?}", unopt(&m_dest)), format!("{:?}", std_dest));
+        }
+        if let Some(par) = &std_parent {
+            let m_parent = self.model.ask(&tagged("parent", vec![st(p)]));
+            if m_parent.as_str() != Some(par.as_str()) {
+                diff(&mut self.rep, "parent", m_parent.short(100), par.clone());
+            }
         }
         if let (Some(n), Some(s)) = (&std_name, &std_stem) {
             let m_stem = self.model.ask(&tagged("file-stem", vec![st(n)]));
@@ -740,6 +835,20 @@ pub fn run(a: &Args) -> i32 {
             let mut rng = case_rng(a.seed, "failing", i);
             let case = gen_failing(&mut rng, i);
             ctx.run_case("failing", i, &case);
+        }
+        // names of the shape `..ext` (once mis-placed by `Path::with_extension`) and other odd names, every placement
+        let odd = ["..graphql", "..gql", "..q", "...graphql", "..", "...x", "q.", ".graphql", "a.b.graphql", "noext"];
+        let n_odd = if ctx.rep.thorough() { 60 } else { 12 };
+        for i in 0..n_odd {
+            let mut rng = case_rng(a.seed, "dotdot-name", i);
+            let mut case = gen_case(&mut rng, i);
+            case.query_name = odd[(i % 10) as usize].to_string();
+            case.flags.no_formatting = true;
+            if case.query_name == ".." {
+                // not a file name at all: the query cannot even be read
+                case.edit = Some("missing-query-file".into());
+            }
+            ctx.run_case("dotdot-name", i, &case);
         }
         for i in 0..n_paths {
             let mut rng = case_rng(a.seed, "paths", i);
